@@ -159,26 +159,34 @@ func failureClass(v verdict) string {
 	return d + "_vs_" + strings.TrimPrefix(v.what, "wire ")
 }
 
+// jsonAt follows a driver path ("/a/0/b"); object keys may themselves contain '/', so at an
+// object every key that is a prefix of the remaining path is tried.
 func jsonAt(v any, path string) any {
-	cur := v
-	for _, p := range strings.Split(strings.TrimPrefix(path, "/"), "/") {
-		if p == "" {
-			continue
-		}
-		switch x := cur.(type) {
-		case map[string]any:
-			cur = x[p]
-		case []any:
-			i, err := strconv.Atoi(p)
-			if err != nil || i < 0 || i >= len(x) {
-				return nil
+	rest := strings.TrimPrefix(path, "/")
+	if rest == "" {
+		return v
+	}
+	switch x := v.(type) {
+	case map[string]any:
+		for k, e := range x {
+			if rest == k {
+				return e
 			}
-			cur = x[i]
-		default:
+			if strings.HasPrefix(rest, k+"/") {
+				if r := jsonAt(e, rest[len(k):]); r != nil {
+					return r
+				}
+			}
+		}
+	case []any:
+		seg, tail, _ := strings.Cut(rest, "/")
+		i, err := strconv.Atoi(seg)
+		if err != nil || i < 0 || i >= len(x) {
 			return nil
 		}
+		return jsonAt(x[i], "/"+tail)
 	}
-	return cur
+	return nil
 }
 
 func isNonFiniteText(v any) bool {
@@ -563,6 +571,10 @@ func c07Codec(c *Ctx, r *gen.R, stream string) error {
 			key := fmt.Sprintf("%s:%s:%s", a.pos, ctx, failureClass(v))
 			if v.declared == "number" && isNonFiniteText(jsonAt(a.j, v.path)) {
 				key = a.pos + ":non_finite_float_as_string"
+			} else if a.pos == "response" && unwrapContainerSibling(k.x.req, k.full, v.path) {
+				// one mechanism whatever the symptom: the container template of a map-value unwrap
+				// encodes the message's OTHER fields through encoding/json
+				key = "response:unwrap_container_sibling"
 			}
 			implAgrees := declsOK[xi] && wireAgrees
 			if implAgrees && (modelled || a.pos == "request") {
@@ -577,6 +589,38 @@ func c07Codec(c *Ctx, r *gen.R, stream string) error {
 	}
 	res.Programs += len(items)
 	return nil
+}
+
+// unwrapContainerSibling: the failing property is a field of a message that also has a
+// map-value-unwrap field (map whose value type carries a repeated unwrap field) and is not that
+// field. go-http emits a MarshalJSON for such a container which encodes every other field with
+// encoding/json (Go struct tags and oneof wrapper names, enums and 64-bit integers as numbers,
+// Timestamps as structs) — outside the Lean wire model (Sebuf.WireEnc.modelled).
+func unwrapContainerSibling(req *ir.Request, full, path string) bool {
+	m, _ := req.FindMessage(full)
+	if m == nil || len(m.Fields) < 2 {
+		return false
+	}
+	first := strings.Split(strings.TrimPrefix(path, "/"), "/")[0]
+	container := false
+	for _, f := range m.Fields {
+		if f.Card != "map" || f.Kind != "message" {
+			continue
+		}
+		vm, _ := req.FindMessage(f.TypeName)
+		if vm == nil {
+			continue
+		}
+		for _, vf := range vm.Fields {
+			if vf.Ann.Unwrap && vf.Card == "repeated" {
+				container = true
+				if ir.JSONName(f.Name) == first {
+					return false
+				}
+			}
+		}
+	}
+	return container
 }
 
 // c07Context collapses the C05 context of a failure to (feature, top | nested): below the
